@@ -53,7 +53,8 @@ EXPECT_PROBES = ["announced", "lost_announced", "lost_half_open",
                  "probe_send_hit", "probe_send_miss",
                  "unrelated_bad_type_error_mid_handshake",
                  "glued_to_handshake_end", "nexus_up_listener_raised",
-                 "nexus_down_listener_halted", "hub_epoll"]
+                 "nexus_down_listener_halted", "hub_epoll",
+                 "nexus_option_clear_flows_on_connect"]
 
 DPIDS = [0x11, 0x2200000022]
 # the two datapath ids of a run are drawn from here (cfg["dpids"]); 0 and
@@ -79,6 +80,15 @@ def gen_plan(seed, tier):
   # the controller runs with --epoll-selecthub, and its process reuses
   # descriptor numbers the way a kernel hands them out (lowest free)
   cfg["epoll"] = Rng(mix(seed, "hub")).chance(0.25)
+  # the nexus' own options: keep the switch's flows on connect, other
+  # miss_send_len settings (what the handshake writes changes, what it waits
+  # for must not)
+  r5 = Rng(mix(seed, "nexus"))
+  cfg["nexus"] = {}
+  if r5.chance(0.3):
+    cfg["nexus"]["clear_flows_on_connect"] = False
+  if r5.chance(0.3):
+    cfg["nexus"]["miss_send_len"] = r5.pick([None, 0xffff, 0])
   # per-peer script, then a random interleaving
   scripts = []
   for p in range(npeers):
@@ -202,6 +212,7 @@ def _drive(sim, plan, known, hit):
   if cfg.get("epoll"):
     sim.epoll_hub = True
     sim.reuse_fds = True
+  sim.nexus_options = cfg.get("nexus") or {}
   world = CTLWorld(sim)
   world.boot()
   if cfg.get("up_listener_raises"):
